@@ -26,6 +26,7 @@ from vf import par, vloop, vloopx
 
 NEEDS_SERVICES = False
 LIFETIME = 10  # seconds of virtual time
+LAGS = (0, 1.0)  # a timer may be observed this much after its due time (time.monotonic_ns read on resumption)
 LOAD_OPTS = ('returns-after-yield', 'returns-after-1s', 'raises-after-yield')
 
 K_BEFORE = 'before-lookup'
@@ -49,6 +50,9 @@ def make_run_one(num_slots, lookups, n_opts=3, reduce=True):
         loop = vloopx.XLoop(chooser)
         loop.anon_prefix = 'load-task'
         loop.ext_mode = True  # FIFO ready queue + environment-completed external events / same-instant timers (see vloopx)
+        if all(c is None for _, _, c in lookups):
+            loop.lag_choices = LAGS  # one late wake-up per execution (configurations without a cancellation only)
+            loop.lag_budget = 1
         loads = []
         ph = [('new',)] * m
         results = [None] * m
@@ -219,7 +223,7 @@ def make_run_one(num_slots, lookups, n_opts=3, reduce=True):
         if bad:
             raise RuntimeError(f'C26 harness: unexpected loop error {bad[0]}')
         outcome = (tuple(sorted(st['kinds'].items())), tuple(results), tuple((ld['key'], ld['opt'], ld['stage']) for ld in loads),
-                   st['maxsize'], blocked)
+                   st['maxsize'], blocked, len(loop.lag_log))
         return outcome, st['viol'], st['sig']
 
     def run_one(chooser):
@@ -237,7 +241,9 @@ def _explore_config(cfg):
         cnt[k] = cnt.get(k, 0) + c
 
     for k, c in r.outcomes.items():
-        kinds, results, loads, maxsize, blocked = ast.literal_eval(k)
+        kinds, results, loads, maxsize, blocked, nlag = ast.literal_eval(k)
+        if nlag:
+            bump('late-wake-up', c)
         for _, kind in kinds:
             bump('cancel:' + kind, c)
         kinds_of = {res[2] for res in results if res and res[0] == 'ok'}
@@ -276,7 +282,7 @@ def configs(tier):
                 ((1, 2), 3, ('a', 'b'), (0, 10, 11), (0, 10), 1, 2),
                 ((1, 2), 3, ('a',), (0, 10, 11), (0, 10), 2, 3),
                 ((1, 2), 3, ('a', 'b', 'c'), (0, 11), (), 0, 2),
-                ((1, 2), 4, ('a', 'b'), (0, 11), (), 0, 2)]
+                ((1, 2), 4, ('a',), (0, 11), (), 0, 2)]
     seen = set()
     for slotss, m, keys, arrivals, ctimes, maxv, n_opts in plan:
         types = sorted(((k, a, c) for k in keys for a in arrivals for c in (None,) + tuple(ctimes)),
@@ -361,7 +367,7 @@ def check(tier, seed, procs):
                       if tier == 'quick' else
                       '2 lookups (keys a,b; arrivals 0/1/10/11/12; <=2 cancelled at 0/1/10/11; 3 load behaviours), 3 lookups (keys a,b; '
                       'arrivals 0/10/11; <=1 cancelled at 0/10; 2 load behaviours | key a; arrivals 0/10/11; <=2 cancelled at 0/10; 3 load '
-                      'behaviours | keys a,b,c; arrivals 0/11; none cancelled; 2 load behaviours), 4 lookups (keys a,b; arrivals 0/11; '
+                      'behaviours | keys a,b,c; arrivals 0/11; none cancelled; 2 load behaviours), 4 lookups (key a; arrivals 0/11; '
                       'none cancelled; 2 load behaviours)')
                    + '; load behaviours: returns after a yield | raises after a yield | returns after 1 s'),
     }
@@ -382,6 +388,8 @@ def check(tier, seed, procs):
             'arrivals, the cancellation) and which of the timers due at one instant fires next, and appends that completion at the '
             'end of the ready queue; every such order is explored',
             'a value exactly `lifetime` old is not "older than its lifetime"; a lookup that never completes is counted but not judged',
+            f'late wake-ups: in configurations without a cancellation, once per execution the clock may be observed {LAGS[1]:g} s after the due time '
+            'of the timer it advances to; ages are judged on the observed clock',
         ],
         # a reported violation is itself evidence that the run was not vacuous (a broken implementation may skip a feature)
         'vacuous': f'never exercised: {missing}' if missing and not violations else None,
